@@ -266,9 +266,10 @@ class Gen:
         for _ in range(n):
             nd = self.node(scope, depth, in_loop)
             out.append(nd)
-            if r.random() < 0.12:
-                # a comment between markup and text: its markers decide how the text is trimmed
-                out.append(("comment", r.choice([0, 1, 2])))
+            if r.random() < 0.16:
+                # a comment or raw tag between markup and text: the markers on its right-hand
+                # end decide how the text after it is trimmed
+                out.append(("comment", r.choice([0, 1, 2])) if r.random() < 0.6 else ("raw", r.choice(["", "r", " r\n", "\n"])))
                 out.append(("content", r.choice([" a", "\n b ", " ", "  c\n"])))
             if nd[0] == "for" and r.random() < 0.5:
                 # names bound inside the loop must be gone (or back to their outer value) afterwards
@@ -382,7 +383,9 @@ class Gen:
                 whens[0] = ([r.choice([("lit", 1), ("lit", True), ("lit", 0), ("lit", False)])], whens[0][1])
             return ("case", subject, whens, els)
         if k < 0.8:
-            x = r.choice(["i", "j", "x"])
+            # mostly fresh names; sometimes a name that is also in the data, so the loop
+            # variable (whatever its value: nil, false ...) must hide the outer one
+            x = r.choice(["i", "j", "x", "i", "j", "x", "a", "n"])
             kk = r.random()
             if kk < 0.08:
                 it = ("array", [gen_primitive(r, scope, False) for _ in range(r.choice([1, 2, 3]))])
@@ -409,8 +412,10 @@ class Gen:
         if k < 0.84:
             return ("capture", r.choice(["c", "t"]), self.block(scope, depth - 1, in_loop))
         if k < 0.88:
-            args = [(r.choice(["a", "w", "v"]), gen_primitive(r, scope)) for _ in range(r.choice([1, 1, 2]))]
+            args = [(r.choice(["a", "w", "v"]), ("lit", None) if r.random() < 0.12 else gen_primitive(r, scope)) for _ in range(r.choice([1, 1, 2]))]
             body = self.block(scope + [a for a, _ in args], depth - 1, in_loop)
+            if r.random() < 0.5:
+                body.insert(0, ("output", ("path", args[0][0], [])))
             if in_loop and r.random() < 0.4:
                 ex = r.choice([("break",), ("continue",)])
                 body.append(ex if r.random() < 0.5 else ("if", gen_bool(r, scope, 1), [ex], [], None))
